@@ -124,6 +124,9 @@ def _alphabet() -> list[L]:
         out.append(L(f"Base: {u}", "Base", u))
     out += [
         L("Base: xyz", "Base", "unknown-unit"),
+        L("Base: mins", "Base", "unknown-unit"),          # not a unit, but ends with one / begins with one
+        L("Base: 2 min", "Base", "unknown-unit"),
+        L("Base: sx", "Base", "unknown-unit"),
         L("Base", "Base", "missing", arg=False),
         L("0.0005 Mark: t", "Mark", "threshold"),
         L("Wait: 0.2s", "Wait", "duration"),
@@ -223,7 +226,7 @@ assert all(t in BY_TEXT for t in CANON.values())
 SUB_TEXTS = [
     "Watch: In1 > 1", "Watch: Temp > 1 degF", "Watch: Tot > 50 mL", "Watch: Temp > 1 kg", "Watch: Run Time > 0.01 min",
     "Watch: Accumulated Volume > 0.05 L", "Alarm: In1 > 1", "Alarm: Temp > 1 degF",
-    "Base: s", "Base: h", "Base: L", "Base: mL", "Base: CV", "Base: kg", "Base: xyz", "0.0005 Mark: t",
+    "Base: s", "Base: h", "Base: L", "Base: mL", "Base: CV", "Base: kg", "Base: xyz", "Base: mins", "0.0005 Mark: t",
     "Wait: 0.2s", "Wait: 1", "Long: 2", "Long: -1", "SetOut: -1.5", "Valve: Open", "Valve: Ajar", "Valve", "Dose: 1 mL", "Dose: 1",
     "Inst", "Pause: 0.2s", "Hold: 0.2s", "Simulate: In1 = 1", "Simulate: Temp = 5 degF", "Simulate: Temp = 5 kg",
     "Simulate off: In1", "Macro: M", "Call macro: M", "Call macro: N", "Run counter: 1", "Increment run counter", "Mark: a",
